@@ -253,6 +253,12 @@ func (e *Env) evalIdent(x *Expr) TV {
 	if v, ok := e.vars[x.Val]; ok {
 		return v
 	}
+	if strings.HasPrefix(x.Val, "$") {
+		// ghost call history: $Func = the last call of Func on this path (fields: .count .ret / .ret0.. / .<param>)
+		name := strings.TrimPrefix(x.Val, "$")
+		recs := e.cur.calls[name]
+		return TV{&CallHist{Name: name, Recs: recs}, nil}
+	}
 	switch x.Val {
 	case "S":
 		return TV{e.world().S, nil}
@@ -358,6 +364,47 @@ func (e *Env) selectField(base TV, name string) TV {
 			et = tt.At(k).Type()
 		}
 		return TV{tu.Elems[k], et}
+	}
+	if ch, ok := base.V.(*CallHist); ok {
+		if name == "count" {
+			return TV{IntLit(int64(len(ch.Recs))), nil}
+		}
+		if name == "called" {
+			return TV{BoolLit(len(ch.Recs) > 0), nil}
+		}
+		if len(ch.Recs) == 0 {
+			// never called on this path: an unspecified value (clauses should guard with .called)
+			efail("$%s.%s: the function was not called on this path (guard with $%s.called)", ch.Name, name, ch.Name)
+		}
+		rec := ch.Recs[len(ch.Recs)-1]
+		if name == "ret" {
+			if rec.Sig.Results().Len() == 1 {
+				return TV{rec.Ret, rec.Sig.Results().At(0).Type()}
+			}
+			return TV{rec.Ret, rec.Sig.Results()}
+		}
+		if strings.HasPrefix(name, "ret") {
+			var k int
+			fmt.Sscanf(name[3:], "%d", &k)
+			if tv, ok := rec.Ret.(*TupleV); ok && k < len(tv.Elems) {
+				return TV{tv.Elems[k], rec.Sig.Results().At(k).Type()}
+			}
+		}
+		for i, p := range rec.Params {
+			if p.Name() == name {
+				return TV{rec.Args[i], p.Type()}
+			}
+		}
+		efail("$%s has no field %s", ch.Name, name)
+	}
+	if it, ok := base.V.(*IterV); ok {
+		switch name {
+		case "pos":
+			return TV{e.ex.content(e.cur, it.Obj), nil}
+		case "n":
+			return TV{it.It.N, nil}
+		}
+		efail("iterator pseudo-field %s (pos, n, key(i) are available)", name)
 	}
 	if base.T == nil {
 		efail("field %s of untyped value", name)
@@ -467,11 +514,23 @@ func (e *Env) lenOf(tv TV) *Term {
 func (e *Env) evalBinary(x *Expr) TV {
 	switch x.Val {
 	case "&&":
-		return TV{And(e.term(x.Args[0]), e.term(x.Args[1])), nil}
+		l := e.term(x.Args[0])
+		if l == False {
+			return TV{False, nil} // short circuit: the right operand may be undefined
+		}
+		return TV{And(l, e.term(x.Args[1])), nil}
 	case "||":
-		return TV{Or(e.term(x.Args[0]), e.term(x.Args[1])), nil}
+		l := e.term(x.Args[0])
+		if l == True {
+			return TV{True, nil}
+		}
+		return TV{Or(l, e.term(x.Args[1])), nil}
 	case "==>":
-		return TV{Implies(e.term(x.Args[0]), e.term(x.Args[1])), nil}
+		l := e.term(x.Args[0])
+		if l == False {
+			return TV{True, nil}
+		}
+		return TV{Implies(l, e.term(x.Args[1])), nil}
 	case "<==>":
 		return TV{Eq(e.term(x.Args[0]), e.term(x.Args[1])), nil}
 	case "==", "!=":
@@ -691,6 +750,15 @@ func (e *Env) evalCall(x *Expr) TV {
 		}
 		// method call
 		recv := e.eval(f.Args[0])
+		if it, ok := recv.V.(*IterV); ok {
+			switch f.Val {
+			case "key":
+				return TV{App(it.It.KeyAt, e.term(args[0])), types.NewSlice(types.Typ[types.Byte])}
+			case "idx":
+				return TV{App(it.It.IdxOf, e.term(args[0])), nil}
+			}
+			efail("iterator pseudo-method %s", f.Val)
+		}
 		if recv.T == nil {
 			efail("method call on untyped value")
 		}
